@@ -510,7 +510,14 @@ def _bounded_by_height(g, call, o, _nofallback=False):
                                 pr = pred if qi == 0 else {'sge': 'sle', 'sgt': 'slt', 'sle': 'sge', 'slt': 'sgt', 'uge': 'ule', 'ugt': 'ult', 'ule': 'uge', 'ult': 'ugt'}.get(pred, pred)
                                 if into_clamp_true is None:
                                     return True
-                                exact = (pr in ('sge', 'uge') and into_clamp_true) or (pr in ('slt', 'ult') and not into_clamp_true)
+                                # the other side is height + c: row >= height + 0 and row > height - 1 are the same test
+                                oth = g.v(g.strip_casts(ops[1 - qi])); c_off = 0
+                                if oth is not None and oth.op in ('add', 'sub') and oth.a[1][0] == 'c':
+                                    c_off = int(oth.a[1][1]) if oth.op == 'add' else -int(oth.a[1][1])
+                                if not into_clamp_true:
+                                    pr = {'sge': 'slt', 'slt': 'sge', 'sgt': 'sle', 'sle': 'sgt', 'uge': 'ult', 'ult': 'uge', 'ugt': 'ule', 'ule': 'ugt'}.get(pr, pr)
+                                # now: the clamp is entered when  row <pr> height + c_off
+                                exact = (pr in ('sge', 'uge') and c_off == 0) or (pr in ('sgt', 'ugt') and c_off == -1)
                                 if exact:
                                     return True
     if _nofallback:
